@@ -522,7 +522,38 @@ func c09Pending(p *core.Prog, r *core.Report) {
 	}
 }
 
+// c09StopImpliesFinish: looking an item up with stopTimeout disarms the only
+// thing that would still end the call if nobody answers. A lookup may ask for
+// that only in a function that goes on to finish the item (entomb / delete it,
+// directly or through finishRelayItem / failRelayItem); a mere probe (the
+// duplicate-id test at admission) passes the constant false.
+func c09StopImpliesFinish(p *core.Prog, r *core.Report) {
+	n := 0
+	for _, cs := range p.CallsTo("relayItems.Get") {
+		if !p.InAnalysed(cs.Fn) || pkgOf(cs.Fn) != core.Root {
+			continue
+		}
+		args := core.CallArgs(cs.Call)
+		if len(args) != 3 {
+			continue
+		}
+		n++
+		construct := fmt.Sprintf("items.Get(id, stopTimeout=%s): a stopped timer's item is finished", desc(args[2]))
+		if b, isC := core.ConstBool(args[2]); isC && !b {
+			r.Ok("C09-R4", fname(cs.Fn), construct, p.Pos(cs.Call.Pos()), "a probe: the timer is left armed")
+			continue
+		}
+		fin := p.CallsDeep(cs.Fn, 2, "relayItems.Entomb", "relayItems.Delete")
+		r.Check(len(fin) > 0, "C09-R4", fname(cs.Fn), construct, p.Pos(cs.Call.Pos()),
+			"the function goes on to entomb / delete the item", "the lookup stops the item's timer but nothing in this function finishes the item: if the call is never answered it is never ended and keeps its item and pending count for ever")
+	}
+	if n < 3 {
+		r.Errorf("expected at least three relayItems.Get sites in the relay, found %d", n)
+	}
+}
+
 func c09Forget(p *core.Prog, r *core.Report) {
+	c09StopImpliesFinish(p, r)
 	if f := mustFunc(p, r, "", "Relayer", "addRelayItem"); f != nil {
 		adds := core.CallsIn(f, "relayItems.Add")
 		starts := core.CallsIn(f, "relayTimer.Start")
